@@ -458,15 +458,24 @@ Qed.
 Print Assumptions C07_manipulation_reduction.
 
 (* (c'') THE SAME THROUGH THE KEYSET-LEVEL READER (streamingaead.New(handle)).
-   keys = the enabled keys of the decrypting keyset in order (all valid).  Third
-   event: DECOY - a key of the keyset other than k accepts, under the session key
-   IT derives from the salt field of c' and aad', the first segment its reader
-   forms (nothing was ever encrypted under the other keys).  The candidate loop
-   with its replaying unreader never turns a manipulated stream into wrong bytes
-   or a clean EOF unless one of the three events is exhibited.
-   (kgood / seg_forgery / hkdf_collision are the three disjuncts of
-   C07_key_manipulation_reduction; first_accept ki = NewDecryptingReader of ki
-   succeeds and seg_dec of ki does not reject the pair read_query returns.) *)
+   keys = the enabled keys of the decrypting keyset in order (all valid).
+   KEYSET HYGIENE (premise): every key of the keyset is k itself or has other key
+   material (k_main).  Why this and not "other record": a record with the key
+   material of k but other parameters (say segment size 45 instead of 44)
+   derives the writer's session keys, so what it accepts are the writer's own
+   segments - no forgery - and its reader cuts the stream at other boundaries,
+   which a theorem about the stream written by k does not cover.
+   Two more events, both about a key ki with OTHER key material:
+     DECOY FORGERY        ki accepts, under the session key sk_i IT derives from
+                          the salt field of c' and aad', the first (nonce,
+                          segment) pair its reader forms, and (sk_i, N, c) is
+                          not in the writer's log;
+     CROSS-KEY COLLISION  ki derives the writer's session keys (HKDF under another
+                          main key gives the writer's output).
+   The candidate loop with its replaying unreader never turns a manipulated
+   stream into wrong bytes or a clean EOF unless one of the four events is
+   exhibited.  (kgood / seg_forgery / hkdf_collision are the three disjuncts of
+   C07_key_manipulation_reduction, written its log.) *)
 Theorem C07_keyset_manipulation_reduction :
   forall (hkdf : hash -> bytes -> bytes -> bytes -> nat -> bytes)
          (gcm_seal : bytes -> bytes -> bytes -> bytes) (gcm_open : bytes -> bytes -> bytes -> option bytes)
@@ -476,19 +485,44 @@ Theorem C07_keyset_manipulation_reduction :
     (N.of_nat (length (segments (k_cseg k - k_tag k) (k_foff k + hdr_len k) p)) <= max_segments)%N ->
     (forall ki, In ki keys -> key_valid ki = true) ->
     own_segments_decrypt hkdf gcm_seal gcm_open aes_ctr hmac k salt prefix aad p ->
+    (forall ki, In ki keys -> ki = k \/ k_main ki <> k_main k) ->
     forall (c' : bytes) (F : option nat) (aad' : bytes) (sizes : list nat),
       kgood hkdf gcm_seal aes_ctr hmac k salt prefix aad p c' aad' sizes
             (keyset_read hkdf gcm_open aes_ctr hmac keys aad' (mkSrc c' F) sizes) \/
       seg_forgery hkdf gcm_seal gcm_open aes_ctr hmac k salt prefix aad p c' F aad' sizes \/
       hkdf_collision hkdf k salt aad c' aad' \/
-      (exists ki, In ki keys /\ ki <> k /\ first_accept hkdf gcm_open aes_ctr hmac ki aad' (mkSrc c' F)).
+      (exists ki k1 k2 pre r0 s3 N c s,
+         In ki keys /\ k_main ki <> k_main k /\
+         new_dec_reader hkdf src read_full ki aad' (mkSrc c' F) = (Some (k1, k2, pre, r0), s3) /\
+         (k1, k2) = derive hkdf ki (firstn (k_dk ki) (skipn 1 c')) aad' /\
+         read_query read_full (k_rparams ki pre) r0 = Some (N, c) /\
+         seg_dec gcm_open aes_ctr hmac ki (k1, k2) N c = Some s /\
+         ~ written hkdf gcm_seal aes_ctr hmac k salt prefix aad p (k1, k2) N c) \/
+      (exists ki, In ki keys /\ k_main ki <> k_main k /\
+                  derive hkdf ki (firstn (k_dk ki) (skipn 1 c')) aad' = derive hkdf k salt aad).
 Proof.
-  intros hkdf gcm_seal gcm_open aes_ctr hmac k salt prefix aad p keys Hv Hs Hp Hb Hvs Hcorr c' F aad' sizes.
+  intros hkdf gcm_seal gcm_open aes_ctr hmac k salt prefix aad p keys Hv Hs Hp Hb Hvs Hcorr Hmat c' F aad' sizes.
   exact (keyset_manipulation_reduction hkdf gcm_seal gcm_open aes_ctr hmac k salt prefix aad p Hv Hs Hp Hb keys Hvs Hcorr
-           c' F aad' sizes).
+           Hmat c' F aad' sizes).
 Qed.
 Print Assumptions C07_keyset_manipulation_reduction.
 
+(* the hygiene premise is about key MATERIAL on purpose: the record k45 (= k with
+   segment size 45) is not k, yet it accepts the first segment of k's honest
+   one-segment stream - the writer's own triple under the writer's session key,
+   no forgery (so "another record accepts" is not a forgery event) *)
+Example C07_same_material_record_is_no_forgery :
+  ex_k45 <> ex_k /\ k_main ex_k45 = k_main ex_k /\
+  first_accept ex_hkdf ex_open ex_ctr ex_hmac ex_k45 ex_aad (mkSrc ex_ct1 None) /\
+  derive ex_hkdf ex_k45 ex_salt ex_aad = derive ex_hkdf ex_k ex_salt ex_aad /\
+  written_b ex_k ex_salt ex_prefix ex_aad ex_p1 (derive ex_hkdf ex_k45 ex_salt ex_aad)
+            (nonce_i ex_k ex_prefix ex_p1 0) (skipn 24 ex_ct1) = true /\
+  key_read ex_hkdf ex_open ex_ctr ex_hmac src read_full ex_k45 ex_aad (mkSrc ex_ct1 None) ex_sz = (ex_p1, AtEof).
+Proof. exact ex_same_material_record_accepts. Qed.
+
+(* per instance: no hygiene premise needed when no other key RECORD accepts the
+   first segment it reads (first_accept ki = NewDecryptingReader of ki succeeds
+   and seg_dec of ki does not reject the pair read_query returns) *)
 Theorem C07_keyset_manipulation_detected :
   forall (hkdf : hash -> bytes -> bytes -> bytes -> nat -> bytes)
          (gcm_seal : bytes -> bytes -> bytes -> bytes) (gcm_open : bytes -> bytes -> bytes -> option bytes)
@@ -519,13 +553,17 @@ Print Assumptions C07_keyset_manipulation_detected.
 
 (* (c-hmac) AES-CTR-HMAC: THE REDUCTION BOTTOMS OUT IN AN HMAC FORGERY.
    aes_ctr_hmac.go: segment = AES-CTR(aesKey, nonce, plaintext) || HMAC(hmacKey,
-   nonce || ciphertext body)[:tagSize].  maced hk' x = the writer authenticated x
-   under hk' (hk' = its HMAC key and x = nonce_i || body_i for a segment of the
-   stream).  A segment that decrypts under (sk', N) - N of nonce size 16 - without
-   being in the writer's log carries a tag that is a valid truncated HMAC, under
-   the HMAC half of sk', of a message the writer never authenticated under that
-   key - unless sk' shares the HMAC half with sk but not the AES half (a partial
-   HKDF collision, only possible for (salt', aad') <> (salt, aad)). *)
+   nonce || ciphertext body)[:tagSize].  Premise key_valid = what NewAESCTRHMAC
+   enforces (aes_ctr_hmac.go: "tag size too small" below 10, at most the digest
+   size, derived key 16 or 32 bytes, ...), so the forged tag has the full tag
+   size >= 10 bytes (without it, at tag size 0 the event would read [] = []).
+   maced hk' x = the writer authenticated x under hk' (hk' = its HMAC key and
+   x = nonce_i || body_i for a segment of the stream).  A segment that decrypts
+   under (sk', N) - N of nonce size 16 - without being in the writer's log carries
+   a tag of tagSize bytes that is a valid truncated HMAC, under the HMAC half of
+   sk', of a message the writer never authenticated under that key - unless sk'
+   shares the HMAC half with sk but not the AES half (a partial HKDF collision,
+   only possible for (salt', aad') <> (salt, aad)). *)
 Theorem C07_ctrhmac_forged_segment_is_hmac_forgery :
   forall (hkdf : hash -> bytes -> bytes -> bytes -> nat -> bytes)
          (gcm_seal : bytes -> bytes -> bytes -> bytes) (gcm_open : bytes -> bytes -> bytes -> option bytes)
@@ -533,6 +571,7 @@ Theorem C07_ctrhmac_forged_segment_is_hmac_forgery :
          (mk : bytes) (h : hash) (dk : nat) (th : hash) (tag cseg foff : nat) (salt prefix aad p : bytes),
     length prefix = nonce_prefix_size ->
     let k := CtrHmac mk h dk th tag cseg foff in
+    key_valid k = true ->
     let sk := derive hkdf k salt aad in
     forall (sk' : bytes * bytes) (N c s : bytes),
       length N = 16 ->
@@ -540,13 +579,14 @@ Theorem C07_ctrhmac_forged_segment_is_hmac_forgery :
       ~ written hkdf gcm_seal aes_ctr hmac k salt prefix aad p sk' N c ->
       let body := firstn (length c - tag) c in
       let t := skipn (length c - tag) c in
-      (t = firstn tag (hmac th (snd sk') (N ++ body)) /\
-       ~ maced hkdf aes_ctr mk h dk th tag cseg foff salt prefix aad p (snd sk') (N ++ body)) \/
+      ((t = firstn tag (hmac th (snd sk') (N ++ body)) /\
+        ~ maced hkdf aes_ctr mk h dk th tag cseg foff salt prefix aad p (snd sk') (N ++ body)) /\
+       length t = tag /\ 10 <= tag) \/
       (snd sk' = snd sk /\ fst sk' <> fst sk).
 Proof.
-  intros hkdf gcm_seal gcm_open aes_ctr hmac mk h dk th tag cseg foff salt prefix aad p Hp k sk sk' N c s HN Hd Hnw.
+  intros hkdf gcm_seal gcm_open aes_ctr hmac mk h dk th tag cseg foff salt prefix aad p Hp k Hv sk sk' N c s HN Hd Hnw.
   exact (ctrhmac_seg_forgery_is_hmac_forgery hkdf gcm_seal gcm_open aes_ctr hmac mk h dk th tag cseg foff salt prefix aad p
-           Hp sk' N c s HN Hd Hnw).
+           Hp Hv sk' N c s HN Hd Hnw).
 Qed.
 Print Assumptions C07_ctrhmac_forged_segment_is_hmac_forgery.
 
@@ -566,7 +606,8 @@ Theorem C07_ctrhmac_key_manipulation_reduction :
             (key_read hkdf gcm_open aes_ctr hmac src read_full k aad' (mkSrc c' F) sizes) \/
       (exists N c, In (N, c) (key_presented hkdf gcm_open aes_ctr hmac k aad' (mkSrc c' F) sizes) /\
                    hmac_forgery hkdf aes_ctr hmac mk h dk th tag cseg foff salt prefix aad p
-                                (snd sk') (N ++ firstn (length c - tag) c) (skipn (length c - tag) c)) \/
+                                (snd sk') (N ++ firstn (length c - tag) c) (skipn (length c - tag) c) /\
+                   length (skipn (length c - tag) c) = tag /\ 10 <= tag) \/
       hkdf_collision hkdf k salt aad c' aad' \/
       (snd sk' = snd sk /\ fst sk' <> fst sk).
 Proof.
@@ -634,6 +675,7 @@ Example C07_one_instance :
    (forall h k m, length (ex_hmac h k m) = digest_size h)) /\
   key_valid ex_k = true /\ length ex_salt = k_dk ex_k /\ length ex_prefix = nonce_prefix_size /\
   (forall ki, In ki ex_keys -> key_valid ki = true) /\ In ex_k ex_keys /\
+  (forall ki, In ki ex_keys -> ki = ex_k \/ k_main ki <> k_main ex_k) /\
   own_segments_decrypt ex_hkdf ex_seal ex_open ex_ctr ex_hmac ex_k ex_salt ex_prefix ex_aad ex_p /\
   (forall a c, In (a, c) ((ex_aad, ex_ct) :: ex_tampered) ->
      (forall N c0, In (N, c0) (key_presented ex_hkdf ex_open ex_ctr ex_hmac ex_k a (mkSrc c None) ex_sz) ->
@@ -652,6 +694,7 @@ Example C07_one_instance :
 Proof.
   split; [exact ex_laws|]. repeat (split; [reflexivity|]).
   split; [intros ki [<-|[<-|[]]]; reflexivity|]. split; [right; left; reflexivity|].
+  split; [intros ki [<-|[<-|[]]]; [right; discriminate|left; reflexivity]|].
   split; [exact ex_own|]. split.
   - intros a c Hin. split; [|split].
     + exact (no_forgery_b_sound ex_k ex_salt ex_prefix ex_aad ex_p c a ex_sz (ex_no_forgery a c Hin)).
@@ -660,23 +703,61 @@ Proof.
   - destruct ex_runs as (_ & _ & A & B & C & D). auto.
 Qed.
 
+(* THE SAME PRIMITIVES WITH AN AES-CTR-HMAC KEY (xor "CTR", checksum "HMAC"
+   truncated to 16 of 32 bytes): for the honest stream and fourteen tampered
+   inputs (every header field, body / first / last tag byte of segment 0, last
+   segment, truncations, appended byte, other / empty associated data) the run is
+   good and EVERY event disjunct of C07_ctrhmac_key_manipulation_reduction is
+   refuted: no presented pair carries an HMAC forgery, no HKDF collision, no
+   partial collision. *)
+Example C07_ctrhmac_instance :
+  key_valid ex_kh = true /\
+  own_segments_decrypt ex_hkdf ex_seal ex_open ex_ctr ex_hmac ex_kh ex_salt ex_prefix ex_aad ex_p /\
+  (forall a c, In (a, c) ((ex_aad, ex_cth) :: ex_tampered_h) ->
+     let sk := derive ex_hkdf ex_kh ex_salt ex_aad in
+     let sk' := derive ex_hkdf ex_kh (firstn (k_dk ex_kh) (skipn 1 c)) a in
+     kgood ex_hkdf ex_seal ex_ctr ex_hmac ex_kh ex_salt ex_prefix ex_aad ex_p c a ex_sz
+           (key_read ex_hkdf ex_open ex_ctr ex_hmac src read_full ex_kh a (mkSrc c None) ex_sz) /\
+     ~ (exists N c0, In (N, c0) (key_presented ex_hkdf ex_open ex_ctr ex_hmac ex_kh a (mkSrc c None) ex_sz) /\
+                     hmac_forgery ex_hkdf ex_ctr ex_hmac ex_mk SHA256 16 SHA256 16 44 0 ex_salt ex_prefix ex_aad ex_p
+                                  (snd sk') (N ++ firstn (length c0 - 16) c0) (skipn (length c0 - 16) c0)) /\
+     ~ hkdf_collision ex_hkdf ex_kh ex_salt ex_aad c a /\
+     ~ (snd sk' = snd sk /\ fst sk' <> fst sk)) /\
+  ex_readh ex_aad ex_cth ex_sz = (ex_p, AtEof) /\
+  map (fun ac => ex_readh (fst ac) (snd ac) ex_sz) ex_tampered_h =
+    [([], Failed); ([], Failed); ([], Failed); ([], Failed); ([], Failed);
+     ([], Failed); ([], Failed); ([], Failed); ([1; 2; 3; 4]%N, Failed);
+     ([], Failed); ([], Failed); ([1; 2; 3; 4]%N, Failed); ([], Failed); ([], Failed)].
+Proof.
+  split; [reflexivity|]. split; [exact ex_own_h|]. split; [|exact ex_runs_h].
+  intros a c Hin sk sk'. split; [|split; [|split]].
+  - exact (key_manipulation_detected_instance ex_hkdf ex_seal ex_open ex_ctr ex_hmac ex_kh ex_salt ex_prefix ex_aad ex_p
+             eq_refl eq_refl eq_refl ltac:(vm_compute; discriminate) ex_own_h c None a ex_sz
+             (no_forgery_b_sound ex_kh ex_salt ex_prefix ex_aad ex_p c a ex_sz (ex_no_forgery_h a c Hin))
+             (ex_no_collision ex_kh ex_salt ex_aad c a)).
+  - exact (ex_no_hmac_forgery_h a c Hin).
+  - apply ex_no_collision.
+  - exact (ex_no_partial_h a c Hin).
+Qed.
+
 (* The events of the reductions are real, not artefacts: AES-CTR-HMAC with a MAC
    that has no authenticity (constant) accepts a segment whose body was altered,
    delivers wrong bytes and ends in a clean EOF; the altered pair is presented,
-   decrypts, is not in the writer's log, and its tag is a "valid HMAC" of a
-   message the writer never authenticated. *)
+   decrypts, is not what the writer produced for segment 0, and its tag is a
+   "valid HMAC" of a message (nonce || altered body) the writer never authenticated. *)
 Example C07_forgery_event_is_real :
-  let c' := flip 24 ex_cth in
+  let c' := flip 24 bad_cth in
   let N0 := nonce_i ex_kh ex_prefix ex_p 0 in
   let c0 := firstn 20 (skipn 24 c') in
-  key_read ex_hkdf ex_open ex_ctr ex_hmac src read_full ex_kh ex_aad (mkSrc c' None) ex_sz =
+  let sk := derive ex_hkdf ex_kh ex_salt ex_aad in
+  key_read ex_hkdf ex_open ex_ctr bad_hmac src read_full ex_kh ex_aad (mkSrc c' None) ex_sz =
     ([0; 2; 3; 4; 5; 6]%N, AtEof) /\
-  In (N0, c0) (key_presented ex_hkdf ex_open ex_ctr ex_hmac ex_kh ex_aad (mkSrc c' None) ex_sz) /\
-  seg_dec ex_open ex_ctr ex_hmac ex_kh (derive ex_hkdf ex_kh ex_salt ex_aad) N0 c0 = Some [0; 2; 3; 4]%N /\
-  written_b ex_kh ex_salt ex_prefix ex_aad ex_p (derive ex_hkdf ex_kh ex_salt ex_aad) N0 c0 = false /\
-  skipn 4 c0 = firstn 16 (ex_hmac SHA256 (snd (derive ex_hkdf ex_kh ex_salt ex_aad)) (N0 ++ firstn 4 c0)).
+  In (N0, c0) (key_presented ex_hkdf ex_open ex_ctr bad_hmac ex_kh ex_aad (mkSrc c' None) ex_sz) /\
+  seg_dec ex_open ex_ctr bad_hmac ex_kh sk N0 c0 = Some [0; 2; 3; 4]%N /\
+  c0 <> seg_enc ex_seal ex_ctr bad_hmac ex_kh sk N0 [1; 2; 3; 4]%N /\
+  skipn 4 c0 = firstn 16 (bad_hmac SHA256 (snd sk) (N0 ++ firstn 4 c0)) /\
+  firstn 4 c0 <> ex_ctr (fst sk) N0 [1; 2; 3; 4]%N.
 Proof. exact ex_forgery_event_is_real. Qed.
-
 
 (* (g) CONSTRUCTOR I/O ERRORS.  NewDecryptingReader succeeds iff the source
    neither ends nor fails within the first hdr_len bytes (limit = min(data
